@@ -1,20 +1,20 @@
-\* exhaustive (thorough): repaired, all counts 1..4 x 1..4, both namings, depth 13
+\* exhaustive (quick): repaired design with up to three concurrent collection starts and starts of collections dropped upstream (lookup / connect / commit under one lock), counts 1..3 x 1..3, depth 7
 SPECIFICATION Spec
 CHECK_DEADLOCK FALSE
 VIEW view
 INVARIANTS TypeOK FmBound Contract
 PROPERTIES Stable
 CONSTANTS
-  MaxS = 4
-  MaxT = 4
+  MaxS = 3
+  MaxT = 3
   Pairs <- AllPairs
   Namings = {"distinct", "same"}
-  MaxOps = 13
+  MaxOps = 7
   HandoffChecksCapacity = TRUE
   ForwardCountedOnce = FALSE
   SourceKeyFromMapping = TRUE
   WithFail = FALSE
-  MaxFlight = 0
+  MaxFlight = 3
   OfferAtomic = TRUE
-  WithDropped = FALSE
+  WithDropped = TRUE
   DroppedChecksQuota = TRUE
